@@ -110,9 +110,9 @@ def _parse_tuple_tail(s):
 
 
 def validate_chunk(workdir, idx, records, focus="ALL", timeout=900):
-    timeout = max(timeout, 900 + len(records) // 4)          # very long uncut sessions get more time
     """Validate one chunk (a list of records starting with a cfg record).  Returns
     (verdicts, knowns, steps, stats, raw_output)."""
+    timeout = max(timeout, 900 + len(records) // 4)          # very long uncut sessions get more time
     path = os.path.join(workdir, "trace_%d.ndjson" % idx)
     with open(path, "w") as fh:
         for r in records:
